@@ -349,6 +349,18 @@ impl AWorld {
                     ("remove_file", 1) => unit(self.on(fsid, &a(0), |q| async move { q.remove_file().await }).await),
                     ("remove_dir", 1) => unit(self.on(fsid, &a(0), |q| async move { q.remove_dir().await }).await),
                     ("remove_dir_all", 1) => unit(self.on(fsid, &a(0), |q| async move { q.remove_dir_all().await }).await),
+                    ("set_ctime", 2) => {
+                        let t = crate::world::time_of(args[1].parse().unwrap());
+                        unit(self.on(fsid, &a(0), |q| async move { q.set_creation_time(t).await }).await)
+                    }
+                    ("set_mtime", 2) => {
+                        let t = crate::world::time_of(args[1].parse().unwrap());
+                        unit(self.on(fsid, &a(0), |q| async move { q.set_modification_time(t).await }).await)
+                    }
+                    ("set_atime", 2) => {
+                        let t = crate::world::time_of(args[1].parse().unwrap());
+                        unit(self.on(fsid, &a(0), |q| async move { q.set_access_time(t).await }).await)
+                    }
                     ("probe_session", 2) => {
                         let b = unhex(&args[1][1..]);
                         enc_res(
@@ -585,6 +597,7 @@ pub fn run(o: &Opts) -> Report {
     let uni: String = universe().iter().map(|p| enc_str(p)).collect::<Vec<_>>().join(" ");
     let mut sworld = RWorld::new(&o.scratch);
     let mut total_pend = 0u64;
+    let mut model_runs: Vec<(String, Vec<(String, String)>)> = vec![];
     for cfg_kind in configs {
         let phys = cfg_kind.contains("phys");
         let reps = if phys { (n_runs / 2).max(2) } else { n_runs };
@@ -620,10 +633,16 @@ pub fn run(o: &Opts) -> Report {
             script.extend(cfg.lines.iter().filter(|l| l.who != Who::Model).map(|l| l.text.clone()));
             let mut dead = false;
             let mut ok_lines = 0u64;
+            // every line the async port executed, with its answer: replayed afterwards on the Lean model of
+            // the async-only code (AsyncOps.lean: `fs N aleaf L` instead of `fs N leaf L`)
+            let trace: std::cell::RefCell<Vec<(String, String)>> = std::cell::RefCell::new(vec![]);
             let mut run_line = |sworld: &mut RWorld, aworld: &mut AWorld, line: &str, rep: &mut Report, script_so_far: &Vec<String>, what: &str| -> Option<(String, String)> {
                 let s = sworld.exec(line);
                 let a = match guarded(|| block_on_with(driver, &rt, aworld.exec(line))) {
-                    Ok(a) => a,
+                    Ok(a) => {
+                        trace.borrow_mut().push((line.to_string(), a.clone()));
+                        a
+                    }
                     Err(m) => {
                         rep.fail(Fail { oracle: "prop".into(), signature: format!("async:{}:panic:{}", what, driver), what: format!("[{} under {}] {} panicked in the async port: {}", cfg_kind, driver, what, m), script: script_so_far.iter().map(|l| format!("I {}", l)).collect(), impl_out: "panic".into(), model_out: s.clone() });
                         return None;
@@ -695,7 +714,9 @@ pub fn run(o: &Opts) -> Report {
                         op = Op { name: if rng.chance(1, 2) { "hcreate" } else { "happend" }, path: p, bytes: None, dest: None, time: None };
                     }
                 }
-                if cfg_kind.contains("ovl") && whandle.is_none() && rng.chance(1, 10) {
+                // (an operation chosen for the open handle — its drop in particular — is never replaced below)
+                let handle_op = matches!(op.name, "hcreate" | "happend" | "hwrite" | "hflush" | "hdrop");
+                if cfg_kind.contains("ovl") && whandle.is_none() && !handle_op && rng.chance(1, 10) {
                     // overlays: recursive removal of a directory that has a non-empty SUB-directory (often one
                     // that exists only in a lower layer): every level must be removed for good in both ports
                     let uni_all: Vec<&str> = universe().iter().cloned().collect();
@@ -704,6 +725,15 @@ pub fn run(o: &Opts) -> Report {
                     if !deep.is_empty() {
                         op = Op { name: "remove_dir_all", path: rng.pick(&deep[..]).to_string(), bytes: None, dest: None, time: None };
                     }
+                }
+                if whandle.is_none() && !handle_op && retype.is_empty() && rng.chance(1, 14) {
+                    // a time setter now and then: the async in-memory backend has no timestamps and the async
+                    // physical one needs a tokio runtime for them, so the answer is compared LENIENTLY (same
+                    // class as the sync port, or not-supported); what is judged strictly is that nothing
+                    // panics and that the tree (type, length, bytes) is untouched by the call in both ports
+                    let exist: Vec<&str> = universe().iter().cloned().filter(|p| !p.is_empty()).collect();
+                    let name = *rng.pick(&["set_mtime", "set_atime", "set_ctime"][..]);
+                    op = Op { name, path: rng.pick(&exist[..]).to_string(), bytes: None, dest: None, time: Some(*rng.pick(&[0i128, 1_234_567_890_123_456_789, -86_400_500_000_000][..])) };
                 }
                 if op.name == "write" && rng.chance(1, 2) {
                     // the same session with the file observed while the handle is open (before and
@@ -742,6 +772,8 @@ pub fn run(o: &Opts) -> Report {
                                 v
                             };
                             n(&s) == n(&a)
+                        } else if op.name.starts_with("set_") {
+                            project(&s, 1) == project(&a, 1) || project(&a, 1).ends_with("notSupported")
                         } else {
                             project(&s, 1) == project(&a, 1)
                         };
@@ -815,9 +847,73 @@ pub fn run(o: &Opts) -> Report {
             total_pend += aworld.injected();
             rep.count_n("lines-agreeing", ok_lines);
             aworld.reset();
+            if !phys && !cfg_kind.contains("ghost") {
+                model_runs.push((format!("{} under {}", cfg_kind, driver), trace.into_inner()));
+            }
         }
     }
     sworld.reset();
+    // CORR: the async port against the Lean model of the async-only code (memory-backed configurations)
+    {
+        let mut batch: Vec<String> = vec![];
+        let mut index: Vec<(usize, usize)> = vec![]; // (run, line) of every batch line
+        for (ri, (_, tr)) in model_runs.iter().enumerate() {
+            for (li, (line, _)) in tr.iter().enumerate() {
+                let toks: Vec<&str> = line.split(' ').collect();
+                let l = if toks.len() == 4 && toks[0] == "fs" && toks[2] == "leaf" {
+                    format!("fs {} aleaf {}", toks[1], toks[3])
+                } else if toks.len() >= 3 && toks[0] == "op" && toks[2] == "probe_session" {
+                    // the driver has no probing session: the same session without the observations in between
+                    line.replacen("probe_session", "write", 1)
+                } else {
+                    line.clone()
+                };
+                batch.push(l);
+                index.push((ri, li));
+            }
+        }
+        if !batch.is_empty() {
+            let outs = run_driver(&o.driver, &batch);
+            let mut dead_run = usize::MAX;
+            for (k, (ri, li)) in index.iter().enumerate() {
+                if *ri == dead_run {
+                    continue;
+                }
+                let (desc, tr) = &model_runs[*ri];
+                let (line, a) = &tr[*li];
+                let m = &outs[k];
+                let toks: Vec<&str> = line.split(' ').collect();
+                let same = if toks[0] == "snap" {
+                    a == m
+                } else if toks[0] == "op" && toks.get(2).map(|t| t.starts_with("set_")).unwrap_or(false) {
+                    // AsyncMemoryFS has no time setters (trait default NotSupported, as in the model); through
+                    // adapters the class may be not-found first: compare failure only
+                    a.starts_with("err") == m.starts_with("err")
+                } else if toks[0] == "op" && toks.get(2) == Some(&"probe_session") {
+                    a.starts_with("err") == m.starts_with("err")
+                } else if toks[0] == "op" && toks.get(2) == Some(&"walk") {
+                    let n = |x: &str| {
+                        let mut v: Vec<String> = project(x, 1).split(' ').map(|t| t.to_string()).collect();
+                        v.sort();
+                        v
+                    };
+                    n(a) == n(m)
+                } else if toks[0] == "op" {
+                    project(a, 1) == project(m, 1)
+                } else if toks[0].starts_with('h') {
+                    project(a, 0).split(' ').next() == project(m, 0).split(' ').next() && (toks[0] != "hread" && toks[0] != "hseek" || project(a, 0) == project(m, 0))
+                } else {
+                    true
+                };
+                rep.evaluations += 1;
+                if !same {
+                    rep.fail(Fail { oracle: "corr".into(), signature: format!("async:model:{}", if toks[0] == "op" { toks.get(2).cloned().unwrap_or("?") } else { toks[0] }), what: format!("[{}] {}: async implementation {} / Lean model of the async port {}", desc, line.chars().take(120).collect::<String>(), a.chars().take(200).collect::<String>(), m.chars().take(200).collect::<String>()), script: tr[..=*li].iter().map(|(l, _)| format!("B {}", l)).collect(), impl_out: a.clone(), model_out: m.clone() });
+                    dead_run = *ri;
+                }
+            }
+            rep.count_n("corr-lines", batch.len() as u64);
+        }
+    }
     rep.count_n("pending-polls-injected", total_pend);
     rep.notes.push(format!("configs {:?}; executors {:?}; 0/1/3 Pending polls before every await point and every directory-stream item of every async leaf", configs, drivers));
     rep
